@@ -59,7 +59,9 @@ def run(tier, seed):
         variants = [{"_perturb": {"cut": after, "vars": ["T", "P", "E"]}},
                     {"_wx": {"trim_before": sc["start"]}}, {"_wx": {"trim_after": sc["end"]}},
                     {"_wx": {"pad_before": 400}}, {"_wx": {"pad_after": 1, "trim_before": sc["start"]}},
-                    {"_wx": {"trim_before": sc["start"], "trim_after": sc["end"]}}]
+                    {"_wx": {"trim_before": sc["start"], "trim_after": sc["end"]}},
+                    # records before the window that are NOT a gap-free daily sequence (a month missing 200 days before the start; sparse records)
+                    {"_wx": {"pad_before": 300, "gap_before": sc["start"]}}, {"_wx": {"pad_sparse": True}}]
         for v in variants:
             b = dict(sc)
             b.update(v)
